@@ -51,6 +51,22 @@ def build_harness():
                            stderr=subprocess.STDOUT, text=True)
     if p.returncode != 0:
         raise ToolError("harness build failed:\n" + p.stdout[-4000:])
+    # this run works with its own copy of the binary: another check may rebuild the harness meanwhile
+    global VH
+    built = os.path.join(HARNESS, "target", "debug", "vh")
+    os.makedirs(WORK, exist_ok=True)
+    mine = os.path.join(WORK, "vh-%d" % os.getpid())
+    for attempt in range(20):
+        try:
+            shutil.copy2(built, mine)
+            break
+        except OSError:
+            time.sleep(0.5)
+    else:
+        raise ToolError("cannot copy the harness binary")
+    VH = mine
+    import atexit
+    atexit.register(lambda: os.path.exists(mine) and os.remove(mine))
     log("[build] harness ok in %.1fs" % (time.time() - t0))
 
 
